@@ -8,6 +8,7 @@ import DialsModel.Model.RuntimeIO
 import DialsModel.Model.OverlayIO
 import DialsModel.Model.HeapIO
 import DialsModel.Model.ParseIO
+import DialsModel.Model.TfIO
 
 open Dials Dials.Proto
 
@@ -55,6 +56,7 @@ def handle (ss : Session) (line : String) : Session × String :=
   | "ov" :: rest => (ss, Overlay.handleOv rest)
   | "hp" :: rest => (ss, Heap.handleHp rest)
   | "ps" :: rest => (ss, Parse.handlePs rest)
+  | "tf" :: rest => (ss, Tf.handleTf rest)
   | "rt" :: rest =>
     let (st, out) := Runtime.handleRt ss.rt rest
     ({ ss with rt := st }, (out.replace "\n" " "))
